@@ -27,7 +27,7 @@ Subset read (anything else is a translation failure, never a guess):
 import re, os, sys, json
 
 REPO = os.environ.get("TC_REPO", "/repo")
-OUTDIR = os.path.join(os.path.dirname(os.path.abspath(__file__)), "..", "lean", "TcVerif", "Generated")
+OUTDIR = os.environ.get("TC_SRC_OUT") or os.path.join(os.path.dirname(os.path.abspath(__file__)), "..", "lean", "TcVerif", "Generated")
 
 
 class Untranslatable(Exception):
@@ -472,6 +472,10 @@ class Emit:
             return p[1]
         if k == "ptuple":
             return "(" + ", ".join(self.pat(x) for x in p[1]) + ")"
+        if k == "ppath" and p[1] == ["None"]:
+            return "none"
+        if k == "ptstruct" and p[1] == ["Some"] and len(p[2]) == 1:
+            return "(some " + self.pat(p[2][0]) + ")"
         if k == "ppath":
             e, v = self.resolve(p[1])
             c, fs = self.ctor(e, v)
@@ -576,12 +580,16 @@ class Emit:
             lines = [f"(match {', '.join(ss)} with"]
             for pat, _, body in arms[i:]:
                 pats = pat[1] if (pat[0] == "ptuple" and len(ss) > 1) else [pat]
+                if len(pats) == 1 and len(ss) > 1 and pats[0][0] == "pwild":
+                    pats = [("pwild",)] * len(ss)       # `_` for the whole tuple
                 if len(pats) != len(ss):
                     raise Untranslatable("tuple pattern arity")
                 lines.append(f"{pad}  | {', '.join(self.pat(x) for x in pats)} => {self.expr(body, ind + 2)}")
             return ("\n").join(lines) + ")"
         pat, guard, body = arms[i]
         pats = pat[1] if (pat[0] == "ptuple" and len(ss) > 1) else [pat]
+        if len(pats) == 1 and len(ss) > 1 and pats[0][0] == "pwild":
+            pats = [("pwild",)] * len(ss)
         if len(pats) != len(ss):
             raise Untranslatable("tuple pattern arity")
         b = self.expr(body, ind + 2)
